@@ -17,6 +17,8 @@ def variants_quick(scn):
     """quick tier: one window-mode and one buffer-mode run per scenario, rotating over the scenarios"""
     v = variants(scn)
     b = _bits(scn)
+    if scn.get("dmode") == "outer":
+        return v
     return [v[0] if (b >> 17) & 1 else v[2], v[1] if (b >> 18) & 1 else v[3]]
 
 
@@ -27,6 +29,16 @@ def variants(scn):
     driven, value profile, call form, argument forms) are spread deterministically over the scenarios."""
     b = _bits(scn)
     bit = lambda n: bool((b >> n) & 1)
+    if scn.get("dmode") == "outer":
+        # outer-only dispose: the subscriber keeps its window subscriptions - window mode only (a buffer_* result has
+        # no window subscriptions of its own)
+        return [
+            dict(buf=False, clock="test", scale=10, profile="plain", salt=b % 2, hot=True, auxhot=True,
+                 order="src" if bit(0) else "aux", short=bit(1), sched_arg=bit(2), form="pipe", twice=bit(15),
+                 late_cancel=bit(19)),
+            dict(buf=False, clock="hist", scale=3, profile="falsy" if bit(7) else "plain", salt=(b >> 3) % 8, hot=bit(8),
+                 auxhot=not bit(8), order="aux" if bit(0) else "src", short=False, sched_arg=bit(9),
+                 form="fluent" if bit(10) else "pipe")]
     return [
         dict(buf=False, clock="test", scale=10, profile="plain", salt=b % 2, hot=True, auxhot=True,
              order="src" if bit(0) else "aux", short=bit(1), sched_arg=bit(2), form="pipe", twice=bit(15),
@@ -48,7 +60,7 @@ def nontrivial(scn, allowed):
 
 
 def runs_for(tier):
-    base = dict(Terms={"C", "E", "U"}, CKinds={"N"}, AuxTerms={"U"}, Faults=False, Disposes=False, ZeroDur=True, MaxAux=2, CountLen=5,
+    base = dict(Terms={"C", "E", "U"}, CKinds={"N"}, AuxTerms={"U"}, Faults=False, Disposes=False, OuterOps=set(), ZeroDur=True, MaxAux=2, CountLen=5,
                 Counts={1, 2, 3}, Spans={1, 2, 3}, Shifts={1, 2, 3}, Durs={1, 2})
 
     def c(ops, ml, mt, **kw):
@@ -62,9 +74,12 @@ def runs_for(tier):
                 # closing / boundary / openings observable errors
                 ("faults bound,when,toggle", c(["bound", "when", "toggle"], 1, 2, MaxAux=1, CKinds={"C", "E"},
                                                AuxTerms={"U", "E"}, Faults=True, Terms={"E", "U"}, Durs={1})),
-                # dispose dimension (C03): the subscriber disposes the result and every window subscription at any instant
+                # dispose dimension (C03): the subscriber disposes the result and every window subscription at any instant,
+                # or ONLY the result (take(1) on the windows ...) and keeps its window subscriptions: those windows go on
+                # and still close when their rule dictates
                 ("dispose all six rules", c(FAMILIES, 2, 2, H=3, CountLen=3, MaxAux=1, Counts={1, 2}, Spans={1, 2},
-                                            Shifts={1, 2}, Durs={1}, Terms={"U"}, Disposes=True))]
+                                            Shifts={1, 2}, Durs={1}, Terms={"U"}, Disposes=True,
+                                            OuterOps=set(FAMILIES)))]
     return [("count", c(["count"], 5, 4, Counts={1, 2, 3, 4}, CountLen=8)),
             ("time", c(["time"], 4, 4, H=6)),
             ("time long", c(["time"], 2, 6, H=8, Spans={1, 2, 4, 5}, Shifts={1, 3, 4})),
@@ -75,8 +90,8 @@ def runs_for(tier):
             ("toggle long", c(["toggle"], 2, 4, H=6, CKinds={"N", "C"}, Durs={1, 3})),
             ("faults bound,when", c(["bound", "when"], 2, 3, CKinds={"N", "C", "E"}, AuxTerms={"U", "E"}, Faults=True)),
             ("faults toggle", c(["toggle"], 1, 2, H=4, CKinds={"N", "E"}, AuxTerms={"U", "E"}, Faults=True, MaxAux=2)),
-            ("dispose count,time,toc", c(["count", "time", "toc"], 3, 3, H=5, Disposes=True)),
-            ("dispose bound,when,toggle", c(["bound", "when", "toggle"], 2, 3, H=5, Disposes=True))]
+            ("dispose count,time,toc", c(["count", "time", "toc"], 3, 3, H=5, Disposes=True, OuterOps=set(FAMILIES))),
+            ("dispose bound,when,toggle", c(["bound", "when", "toggle"], 2, 3, H=5, Disposes=True, OuterOps=set(FAMILIES)))]
 
 
 def sampled_runs(tier):
@@ -84,7 +99,7 @@ def sampled_runs(tier):
     every tie order of each sampled scenario, so allowed sets are complete"""
     if tier == "quick":
         return []
-    big = dict(Terms={"C", "E", "U"}, CKinds={"N", "C"}, AuxTerms={"U"}, Faults=False, Disposes=True, ZeroDur=True, MaxAux=4, MaxLen=7, CountLen=12, MaxT=9, H=11,
+    big = dict(Terms={"C", "E", "U"}, CKinds={"N", "C"}, AuxTerms={"U"}, Faults=False, Disposes=True, OuterOps=set(FAMILIES), ZeroDur=True, MaxAux=4, MaxLen=7, CountLen=12, MaxT=9, H=11,
                Counts={1, 2, 3, 4, 5}, Spans={1, 2, 3, 5, 7}, Shifts={1, 2, 3, 4, 6}, Durs={1, 2, 3, 5})
     return [("sampled " + f, f, dict(big, Ops={f}), 1200) for f in FAMILIES]
 
@@ -150,6 +165,9 @@ def run(tier):
         "create-based): the window closes at the instant it opened, before anything else",
         "variant late_cancel (time, time-or-count): the operator's timer scheduler cancels only actions whose due time "
         "has not been reached yet (best-effort cancellation, as on a thread-based scheduler); the allowed set is unchanged",
+        "outer-only dispose (dmode outer, window mode): only the subscription to the sequence of windows is disposed half "
+        "a tick after dsp; windows handed out before stay subscribed and must go on as their rule dictates (elements, "
+        "closing instant / count, source terminal); the source subscription is closed when the last of them has ended",
         "the run is cut half a tick after the horizon H; sources that never terminate are observed up to H only"]
     return ck.finish()
 
